@@ -35,12 +35,15 @@ def parseUint (b : Bytes) : Option Int :=
   if b.isEmpty then none
   else b.foldl (fun acc c => match acc with
     | none => none
-    | some n => if c < 48 || c > 57 then none else some (wrapInt64 (n * 10 + (c - 48 : Nat)))) (some 0)
+    | some n =>
+      if c < 48 || c > 57 then none
+      else if n * 10 + (c - 48 : Nat) > (2 ^ 63 - 1 : Int) then none   -- would not fit Go's int
+      else some (n * 10 + (c - 48 : Nat))) (some 0)
 
 def isConnectionSpecific (k : Bytes) : Bool := Gen.connectionSpecific.any (· == k)
 
-/-- `ToLower`: `b[i] |= 32` on every octet -/
-def toLowerGo (b : Bytes) : Bytes := b.map fun c => c ||| 32
+/-- `ToLower`: bit 0x20 set on the letters A–Z -/
+def toLowerGo (b : Bytes) : Bytes := b.map fun c => if c ≥ 65 && c ≤ 90 then c ||| 32 else c
 
 /-- `statusBytes` -/
 def statusBytes (code : Int) : Bytes :=
@@ -61,11 +64,15 @@ def delFirst (l : List Strm) (id : Nat) : List Strm :=
 
 /-! ## writers -/
 
-def writeReset (r : R) (sid code : Nat) : R := r.emit (.rst sid code)
+def writeReset (r : R) (sid code : Nat) : R :=
+  let r := r.emit (.rst sid code)
+  let known := if r.s.resetByUs.length ≥ Gen.c_closedStrmsCap then [] else r.s.resetByUs
+  { r with s := { r.s with resetByUs := if known.contains sid then known else known ++ [sid] } }
 
 /-- `writeGoAway(strm, code, msg)` -/
 def writeGoAway (r : R) (sid code : Nat) (tag : String) : R :=
-  let r := r.emit (.goAway (sid % 2 ^ 31) code tag)
+  let last := if sid > r.s.lastID then sid else r.s.lastID
+  let r := r.emit (.goAway (last % 2 ^ 31) code tag)
   let s := r.s
   let s := if sid ≠ 0 then { s with closeRef := s.lastID } else s
   { r with s := { s with closing := true } }
@@ -298,7 +305,7 @@ def fieldLoop : Nat → Srv → Strm → Bool → Bool → Nat → Bytes → Srv
           | some n =>
             if s.cfg.maxBody > 0 && n > (s.cfg.maxBody : Int) then (s, st, some (.reset Gen.c_EnhanceYourCalm))
             else fieldLoop fuel s { st with contentLength := n, hasCL := true } blockStart endHeaders (fp + 1) rest
-          | none => fieldLoop fuel s st blockStart endHeaders (fp + 1) rest
+          | none => (s, st, some (.reset Gen.c_ProtocolError))
         else fieldLoop fuel s { st with fields := st.fields ++ [(k, v)] } blockStart endHeaders (fp + 1) rest
 
 /-- `handleHeaderFrame` -/
@@ -308,9 +315,12 @@ def handleHeaderFrame (s : Srv) (st : Strm) (fr : Frame) : Srv × Strm × Option
     | .headers _ eh p f => (false, eh, p, f)
     | .continuation eh f => (true, eh, none, f)
     | _ => (false, false, none, [])
-  if st.headersFinished && !(Frame.hasFlag fr.flags Gen.c_FlagEndStream && Frame.hasFlag fr.flags Gen.c_FlagEndHeaders) then
+  if st.headersFinished && !Frame.hasFlag fr.flags Gen.c_FlagEndStream then
     (s, st, some (.goAway Gen.c_ProtocolError "stream not open"))
-  else if (match prio with | some (dep, _) => dep == st.id | none => false) then
+  else
+  -- a trailer block that goes on in CONTINUATION: a block is in progress again
+  let st := if st.headersFinished && !Frame.hasFlag fr.flags Gen.c_FlagEndHeaders then { st with headersFinished := false } else st
+  if (match prio with | some (dep, _) => dep == st.id | none => false) then
     (s, st, some (.goAway Gen.c_ProtocolError "stream that depends on itself"))
   else
     let blockStart := !isCont && st.prevHdr.isEmpty
@@ -339,16 +349,22 @@ def verifyState (st : Strm) (fr : Frame) : Option SErr :=
       some (.goAway Gen.c_StreamClosedError "wrong frame on half-closed stream") else none
   | _ => none
 
-/-- `consumeRecvWindow` -/
-def consumeRecvWindow (r : R) (st : Strm) (fr : Frame) (n : Nat) : R :=
+/-- `consumeConnWindow` -/
+def consumeConnWindow (r : R) (n : Nat) : R :=
   if n == 0 then r
   else
-    let r := if !Frame.hasFlag fr.flags Gen.c_FlagEndStream then r.emit (.wu st.id n) else r
     let cur := r.s.recvWin - n
     if cur < (Gen.c_serverMaxWindow : Int) / 2 then
       let inc := (Gen.c_serverMaxWindow : Int) - cur
       { (r.emit (.wu 0 inc.toNat)) with s := { r.s with recvWin := Gen.c_serverMaxWindow } }
     else { r with s := { r.s with recvWin := cur } }
+
+/-- `consumeRecvWindow` -/
+def consumeRecvWindow (r : R) (st : Strm) (fr : Frame) (n : Nat) : R :=
+  if n == 0 then r
+  else
+    let r := if !Frame.hasFlag fr.flags Gen.c_FlagEndStream then r.emit (.wu st.id n) else r
+    consumeConnWindow r n
 
 /-- `handleFrame` -/
 def handleFrame (r : R) (uid : Nat) (fr : Frame) : R × Option SErr :=
@@ -380,7 +396,7 @@ def handleFrame (r : R) (uid : Nat) (fr : Frame) : R × Option SErr :=
           let d : Bytes := match fr.body with | .data _ b => b | _ => []
           let st' := { st with recvBody := st.recvBody + d.length }
           let r := r.updStrm uid fun _ => st'
-          if r.s.cfg.maxBody > 0 && st'.recvBody > r.s.cfg.maxBody then (r, some (.reset Gen.c_EnhanceYourCalm))
+          if r.s.cfg.maxBody > 0 && st'.recvBody > r.s.cfg.maxBody then (consumeConnWindow r fr.length, some (.reset Gen.c_EnhanceYourCalm))
           else
             let r := r.updStrm uid fun s => { s with body := s.body.add d }
             (consumeRecvWindow r st' fr fr.length, none)
@@ -399,7 +415,7 @@ def handleFrame (r : R) (uid : Nat) (fr : Frame) : R × Option SErr :=
           else
             let w := st.window + inc
             let r := r.updStrm uid fun s => { s with window := w }
-            if w ≥ 2 ^ 31 - 1 then (r, some (.reset Gen.c_FlowControlError)) else (r, none)
+            if w > 2 ^ 31 - 1 then (r, some (.reset Gen.c_FlowControlError)) else (r, none)
       else (r, some (.goAway Gen.c_ProtocolError "invalid frame"))
 
 /-- `handleState` -/
@@ -410,14 +426,14 @@ def handleState (fr : Frame) (st : Strm) : Strm :=
   | .idle =>
     if fr.typ == Gen.c_FrameHeaders then { st with state := if es then .halfClosed else .open } else st
   | .open =>
-    if es then { st with state := .halfClosed }
+    if (fr.typ == Gen.c_FrameData || fr.typ == Gen.c_FrameHeaders) && es then { st with state := .halfClosed }
     else if fr.typ == Gen.c_FrameResetStream then { st with state := .closed } else st
   | .halfClosed => if fr.typ == Gen.c_FrameResetStream then { st with state := .closed } else st
   | _ => st
 
 /-- `canCloseAfterGoAway` -/
 def canCloseAfterGoAway (s : Srv) : Bool :=
-  s.closeRef != 0 && !(s.strms.any fun st => st.origType == Gen.c_FrameHeaders && st.id ≤ s.closeRef)
+  !(s.strms.any fun st => st.origType == Gen.c_FrameHeaders && st.id ≤ s.closeRef)
 
 def stopLoop (r : R) : R := { r with s := { r.s with slStopped := true } }
 
@@ -450,15 +466,30 @@ def slStreamFrame (r : R) (fr : Frame) : R :=
     match found with
     | some st => (r, some st.uid, true)
     | none =>
-      if fr.typ == Gen.c_FrameResetStream then
-        ((if fr.stream > r.s.lastID then writeGoAway r fr.stream Gen.c_ProtocolError "RST_STREAM on idle stream" else r), none, false)
+      let closeIfDone (r : R) : R := if canCloseAfterGoAway r.s then stopLoop r else r
+      if r.s.resetByUs.contains fr.stream then
+        -- in flight when the peer had not yet seen our RST_STREAM: ignored, DATA still charged to the connection
+        ((if fr.typ == Gen.c_FrameData then consumeConnWindow r fr.length else r), none, false)
+      else if fr.typ == Gen.c_FrameResetStream then
+        ((if fr.stream > r.s.lastID then closeIfDone (writeGoAway r fr.stream Gen.c_ProtocolError "RST_STREAM on idle stream") else r), none, false)
       else if r.s.ring.contains fr.stream then
         ((if fr.typ == Gen.c_FramePriority || fr.typ == Gen.c_FrameWindowUpdate then r
-          else writeGoAway r fr.stream Gen.c_StreamClosedError "closed-stream"), none, false)
+          else closeIfDone (writeGoAway r fr.stream Gen.c_StreamClosedError "closed-stream")), none, false)
+      else if fr.typ != Gen.c_FrameHeaders then
+        -- only HEADERS opens a stream
+        if fr.typ == Gen.c_FramePriority then
+          if (match fr.body with | .priority dep _ => dep == fr.stream | _ => false) then
+            (stopLoop (writeGoAway r fr.stream Gen.c_ProtocolError "stream that depends on itself"), none, false)
+          else (r, none, false)
+        else if fr.stream > r.s.lastID then
+          (stopLoop (writeGoAway r fr.stream Gen.c_ProtocolError "wrong frame on idle stream"), none, false)
+        else if fr.typ != Gen.c_FrameWindowUpdate then
+          (closeIfDone (writeGoAway r fr.stream Gen.c_StreamClosedError "closed-stream"), none, false)
+        else (r, none, false)
       else if r.s.openStreams ≥ (r.s.cfg.maxStreams : Int) || wasClosing then
         (writeReset r fr.stream Gen.c_RefusedStreamError, none, false)
       else if fr.stream < r.s.lastID then
-        (writeGoAway r fr.stream Gen.c_ProtocolError "lower-id", none, false)
+        (closeIfDone (writeGoAway r fr.stream Gen.c_ProtocolError "lower-id"), none, false)
       else
         let st : Strm := { uid := r.s.nextUid, id := fr.stream, window := r.s.curInitWin, origType := fr.typ }
         let s := { r.s with strms := r.s.strms ++ [st], nextUid := r.s.nextUid + 1 }
@@ -606,7 +637,7 @@ def rlDrain : Nat → R → R
   | 0, r => r
   | fuel + 1, r =>
     if r.s.rlStopped || r.s.inbuf.isEmpty then r else
-    match Frame.readFrame r.s.peerFrameSize r.s.inbuf with
+    match Frame.readFrame Gen.c_defaultDataFrameSize r.s.inbuf with   -- sc.st.frameSize, what the server advertises
     | .ok fr n => rlDrain fuel (rlFrame { r with s := { r.s with inbuf := r.s.inbuf.drop n } } fr)
     | .unknownType _ n =>
       if r.s.inbuf.length < 9 + be24 r.s.inbuf then r   -- Discard blocks until the payload is all there
